@@ -13,4 +13,13 @@ exec(compile(src.replace('if __name__ == "__main__":\n    main()', ''), "check",
 for p in ("release",):
     mod.build_harness(p)
 PY
+# pre-build the ThreadSanitizer std (-Zbuild-std) and Miri sysroot used by C20 so that the first C20 check is not dominated by them
+python3 - <<'PY' || true
+import sys
+sys.path.insert(0, ".")
+import check_c20
+check_c20.build("tsan", "/repo")
+check_c20.build("native", "/repo")
+PY
+(cd .build/conc-miri 2>/dev/null || true; cargo +nightly miri setup >/dev/null 2>&1 || true)
 echo "setup done"
